@@ -8,7 +8,7 @@ use std::time::Duration;
 use tower::{Layer, Service};
 use tower_resilience_cache::{Cache, CacheError, CacheLayer, EvictionPolicy, SharedCacheLayer};
 
-type Svc = Cache<Inner, Req, u32, Resp>;
+type Svc = Cache<Inner, Req, CKey, Resp>;
 pub struct CacheAd {
     svcs: Vec<Svc>,
     nkeys: u32,
@@ -23,6 +23,10 @@ impl Adapter for CacheAd {
         "cache"
     }
     fn gen_cfg(&mut self, rng: &mut Rng, size: Size) -> Value {
+        if rng.pct(4) {
+            // directed history (see script): an entry expires, its refresh fails, the store fills up, the key comes back
+            return json!({"max": 2, "ttl": 2, "pol": *rng.pick(&["lfu", "lfu", "lru", "fifo"]), "shared": 0, "nkeys": 3, "ctor": 0, "dir": 1});
+        }
         let nk = if size == Size::Quick { 3 + rng.below(4) } else { 4 + rng.below(9) };
         json!({"max": 1 + rng.below(nk.min(6)), "ttl": *rng.pick(&[-1i64, -1, 2, 5, 9]), "pol": *rng.pick(&["lru", "lfu", "fifo"]), "shared": rng.below(2), "nkeys": nk, "ctor": rng.below(2)})
     }
@@ -42,7 +46,7 @@ impl Adapter for CacheAd {
         if cfg["shared"].as_u64().unwrap() == 1 && cfg["ctor"].as_u64().unwrap_or(0) == 1 {
             // the other way to a shared store: CacheLayer::shared()
             let (h3, m3, e3) = (cnt.clone(), cnt.clone(), cnt.clone());
-            let mut b = CacheLayer::<Req, u32>::builder().max_size(max).eviction_policy(pol).key_extractor(|r: &Req| r.key)
+            let mut b = CacheLayer::<Req, CKey>::builder().max_size(max).eviction_policy(pol).key_extractor(|r: &Req| CKey(r.key))
                 .on_hit(move || { h3[0].fetch_add(1, Ordering::SeqCst); }).on_miss(move || { m3[1].fetch_add(1, Ordering::SeqCst); }).on_eviction(move || { e3[2].fetch_add(1, Ordering::SeqCst); });
             if ttl >= 0 {
                 b = b.ttl(Duration::from_millis(ttl as u64));
@@ -50,7 +54,7 @@ impl Adapter for CacheAd {
             let layer = b.build().shared::<Resp>();
             self.svcs = vec![layer.layer(inner.clone()), layer.layer(inner)];
         } else if cfg["shared"].as_u64().unwrap() == 1 {
-            let mut b = SharedCacheLayer::<Req, u32, Resp>::builder().max_size(max).eviction_policy(pol).key_extractor(|r: &Req| r.key)
+            let mut b = SharedCacheLayer::<Req, CKey, Resp>::builder().max_size(max).eviction_policy(pol).key_extractor(|r: &Req| CKey(r.key))
                 .on_hit(move || { h[0].fetch_add(1, Ordering::SeqCst); }).on_miss(move || { m[1].fetch_add(1, Ordering::SeqCst); }).on_eviction(move || { e[2].fetch_add(1, Ordering::SeqCst); });
             if ttl >= 0 {
                 b = b.ttl(Duration::from_millis(ttl as u64));
@@ -60,7 +64,7 @@ impl Adapter for CacheAd {
         } else if cfg["shared"].as_u64().unwrap() == 2 {
             unreachable!()
         } else {
-            let mut b = CacheLayer::<Req, u32>::builder().max_size(max).eviction_policy(pol).key_extractor(|r: &Req| r.key)
+            let mut b = CacheLayer::<Req, CKey>::builder().max_size(max).eviction_policy(pol).key_extractor(|r: &Req| CKey(r.key))
                 .on_hit(move || { h2[0].fetch_add(1, Ordering::SeqCst); }).on_miss(move || { m2[1].fetch_add(1, Ordering::SeqCst); }).on_eviction(move || { e2[2].fetch_add(1, Ordering::SeqCst); });
             if ttl >= 0 {
                 b = b.ttl(Duration::from_millis(ttl as u64));
@@ -102,6 +106,37 @@ impl Adapter for CacheAd {
         p.max_adv = 3;
         p.spurious_pct = 1;
         p
+    }
+    fn script(&mut self, cfg: &Value, _size: Size, rng: &mut Rng) -> Option<Vec<Value>> {
+        if cfg["dir"].as_u64().unwrap_or(0) != 1 {
+            return None;
+        }
+        // even caller ids: one service (one store). Key a expires, its refresh fails; b and c fill the store and are
+        // used once more each; then a is fetched again and has to displace one of them.
+        let (a, b, c) = match rng.below(3) {
+            0 => (1, 2, 3),
+            1 => (2, 3, 1),
+            _ => (3, 1, 2),
+        };
+        let mut v = vec![];
+        let mut id = 2;
+        let mut fetch = |v: &mut Vec<Value>, key: u64, out: Option<&str>| {
+            v.push(json!({"e":"create","c":id,"key":key}));
+            if let Some(o) = out {
+                v.push(json!({"e":"complete","c":id,"out":o}));
+            }
+            v.push(json!({"e":"poll","c":id}));
+            id += 2;
+        };
+        fetch(&mut v, a, Some("ok"));
+        v.push(json!({"e":"advance","d":3}));
+        fetch(&mut v, a, Some("e1"));
+        fetch(&mut v, b, Some("ok"));
+        fetch(&mut v, b, None);
+        fetch(&mut v, c, Some("ok"));
+        fetch(&mut v, c, None);
+        fetch(&mut v, a, Some("ok"));
+        Some(v)
     }
     fn finale(&self, cfg: &Value) -> Vec<Value> {
         // probe sweep: every key once per service with the inner service failing (nothing is inserted)
